@@ -148,7 +148,7 @@ func fragmentContext(body string) *html.Node {
 			// Ensure the prefix is followed by a space, >, or end-of-string
 			// to avoid false matches (e.g., "<the" matching "<th").
 			rest := lower[len(m.prefix):]
-			if len(rest) == 0 || rest[0] == ' ' || rest[0] == '>' || rest[0] == '\n' || rest[0] == '\t' || rest[0] == '/' {
+			if len(rest) == 0 || rest[0] == ' ' || rest[0] == '>' || rest[0] == '\n' || rest[0] == '\r' || rest[0] == '\f' || rest[0] == '\t' || rest[0] == '/' {
 				return &html.Node{Type: html.ElementNode, DataAtom: m.dataAtom, Data: m.data}
 			}
 		}
